@@ -105,7 +105,7 @@ def validate(trace_path):
         open(trace_path + ".tlc.out", "w").write(out)
         raise ToolError("BackendTrace did not consume the trace: " + info.get("error_text", out[-1200:])[:1500])
     c = tuples(out, "COUNTS")[-1]
-    return {"rejects": tuples(out, "REJECT"), "drift": tuples(out, "DRIFT"), "splits": c[1], "selects": c[2], "states": info.get("distinct", 0)}
+    return {"rejects": tuples(out, "REJECT"), "drift": tuples(out, "DRIFT"), "splits": c[1], "selects": c[2], "pres": c[5], "states": info.get("distinct", 0)}
 
 def run(d, srcs, dialects="all", nsh=8, tag="be"):
     """srcs: [{"id", "src"} | {"id", "rq"}].  -> {"rejects": [...], "drift": [...], counters}"""
@@ -123,7 +123,7 @@ def run(d, srcs, dialects="all", nsh=8, tag="be"):
         return v
     with ThreadPoolExecutor(max_workers=min(8, len(shards) or 1)) as ex:
         results = list(ex.map(one, range(len(shards))))
-    res = {"rejects": [], "drift": [], "splits": 0, "selects": 0, "states": 0, "compiled": 0, "errors": 0, "panics": 0}
+    res = {"rejects": [], "drift": [], "splits": 0, "selects": 0, "pres": 0, "states": 0, "compiled": 0, "errors": 0, "panics": 0}
     import re
     for v in results:
         evs = None
@@ -140,9 +140,10 @@ def run(d, srcs, dialects="all", nsh=8, tag="be"):
                 rec = {"id": t[1], "dialect": t[2], "event": e, "sql": evs[j].get("detail"), "trace_file": v["trace"], "line": line,
                        "source": src_of.get(t[1], {})}
                 if kind == "rejects":
-                    rec["verdict"] = t[3]; rec["pair"] = t[5] if len(t) > 5 else None
+                    rec["verdict"] = t[3]
+                    rec["pair"] = [int(re.sub(r"\D", "", str(x)) or 0) for x in t[5:7]] if len(t) > 6 else None
                 res[kind].append(rec)
-        for k in ("splits", "selects", "states"):
+        for k in ("splits", "selects", "pres", "states"):
             res[k] += v[k]
         m = re.search(r"(\d+) compiled, (\d+) errors, (\d+) panics", v["pv"])
         if m:
@@ -152,6 +153,9 @@ def run(d, srcs, dialects="all", nsh=8, tag="be"):
 def describe(rec):
     """short text of a rejected event: the kinds of the atomic pipeline / the clauses"""
     e = rec["event"]
+    if e["ev"] == "Pre":
+        f = lambda t: (t["cx"] if t["k"] == "Compute" else t["k"]) + ("/" + ",".join(map(str, t["part"])) if t["k"] in ("Take", "DistinctOn") and t["part"] else "")
+        return " ".join(f(t) for t in e["input"]) + " => " + " ".join(f(t) for t in e["output"])
     if e["ev"] == "Split":
         ks = [(t["cx"] if t["k"] == "Compute" else t["k"]) + ("*" if t.get("sorted") else "") for t in e["atomic"]]
         return " ".join(ks)
@@ -160,7 +164,9 @@ def describe(rec):
 def selftest(d):
     """binding demonstration: one planted defect per rule of Backend.tla in recorded events"""
     srcs = [{"id": "s1", "src": "from t | select {a, b} | sort a | take 3 | filter b > 1 | derive {w = sum b} | group a (aggregate {s = sum w}) | filter s > 0 | sort s | take 2..3"},
-            {"id": "s2", "src": "from t | select {a, b} | derive {w = sum b} | group a (aggregate {s = sum w})"}]
+            {"id": "s2", "src": "from t | select {a, b} | derive {w = sum b} | group a (aggregate {s = sum w})"},
+            {"id": "s3", "src": "from t | select {a, b} | group {a, b} (take 1) | filter b > 1"},
+            {"id": "s4", "src": "from t | filter a > 1 | derive {c = a + 1} | select {c}"}]
     ip = os.path.join(d, "self.src.ndjson"); tp = os.path.join(d, "self.trace.ndjson"); write_ndjson(ip, srcs)
     pv(["backend", ip, tp, "sqlite"])
     evs = read_ndjson(tp)
@@ -193,6 +199,17 @@ def selftest(d):
     for fld, val, verdict in (("limit", 5, "assembly-limit"), ("offset", 0, "assembly-offset"), ("order", 0, "assembly-order-by"), ("where", True, "assembly-where"), ("distinct", "distinct", "assembly-distinct")):
         m = copy.deepcopy(sl); m["shape"][fld] = val
         plant("sh-" + fld, m); want["sh-" + fld] = verdict
+    # (5) preprocess: a group-take over some columns compiled to DISTINCT although the rest of the row is still used;
+    #     a Compute carried across a filter; a transform lost
+    pres = [e for e in evs if e["ev"] == "Pre"]
+    pd = next(e for e in pres if any(t["k"] == "Distinct" for t in e["output"]))
+    m = copy.deepcopy(pd); tk = next(t for t in m["input"] if t["k"] == "Take" and t["part"]); tk["part"] = tk["part"][:1]
+    plant("pre-distinct", m); want["pre-distinct"] = "preprocess-distinct-partition-mismatch"
+    pc = next(e for e in pres if [t["k"] for t in e["output"]][:3] == ["From", "Filter", "Compute"])
+    m = copy.deepcopy(pc); m["output"][1], m["output"][2] = m["output"][2], m["output"][1]
+    plant("pre-moved", m); want["pre-moved"] = "preprocess-compute-moved"
+    m = copy.deepcopy(pc); del m["output"][1]
+    plant("pre-lost", m); want["pre-lost"] = "preprocess-kind-changed"
     planted.append({"ev": "End"})
     pp = os.path.join(d, "self.planted.ndjson"); write_ndjson(pp, planted)
     got = {t[1]: t[3] for t in validate(pp)["rejects"]}
